@@ -209,6 +209,9 @@ class StepOperationExecutor(OperationExecutor[T]):
             ExecutionError: For fatal errors that should not be retried
             May raise other exceptions that will be handled by retry_handler
         """
+        # an orphaned map/parallel branch must not run the user function of an existing operation
+        self.state.raise_if_orphaned(self.operation_identifier.operation_id)
+
         # Get current attempt - checkpointed attempts + 1
         attempt: int = 1
         if checkpointed_result.operation and checkpointed_result.operation.step_details:
